@@ -73,9 +73,11 @@
   the projection of `BrokerProd.resp` with several partitions in the set: the outcome-bearing actions of `p` of both
   passes of handleSuccess equal (relabelled) those of the one-partition worker on the projected set with `projV p r`
   (Props/C02bp.lean has the id-level versions `outData_loop1`, `bounces_loop1`, `loop2_part`, `handle_needs`; needed
-  are versions that keep retries / fin flags), the other actions are `ForeignActs p`, and a lemma for `bpActsN` on an
-  interleaving of own and foreign actions (`bpActsN_own` / `bpActsN_foreign` cover the pure lists only; offsets from
-  `base p`).  Not started.
+  are versions that keep retries / fin flags, i.e. `(acts.filter (isOwn p)).map relabA` of the N-step = the same filter
+  of the one-partition step), and the state relation after the step.  The system-level half IS there:
+  Props/C02multiM.lean `bpActsN_mixed` (applying any action list to the N-state is, for `p`, applying its relabelled
+  outcome-bearing actions of `p` to the one-partition state, offsets from `off p`).  The worker-level half is not
+  started.
   Also not established: that the one-partition run exhibited by `ProjSim_partial` satisfies `splitOKs` (it is a
   hypothesis of `log_order_every_partition_partial`; it depends on the hidden/visible history, which the N-state alone
   does not determine), and the full `ProjSim` (no side condition).
